@@ -1,7 +1,7 @@
 (* Proofs about Bin.v (property C05): the per-step table with timestamp tags
    computes, at every step of a query, the table-free pairing [pure_step]. *)
 From Coq Require Import List ZArith NArith Bool Lia.
-From Verif Require Import Base Agg Func Bin.
+From Verif Require Import Base Agg AggProofs Func Bin.
 Import ListNotations.
 Close Scope Z_scope.
 
@@ -14,6 +14,13 @@ Proof.
     split; [constructor; [intros Hin; apply Hn; apply in_or_app; left; assumption|assumption]|].
     split; [assumption|].
     intros x [->|Hx] Hx2; [apply Hn; apply in_or_app; right; assumption|exact (D x Hx Hx2)].
+Qed.
+
+Lemma flat_map_ext_in {A B} (f g : A -> list B) l :
+  (forall x, In x l -> f x = g x) -> flat_map f l = flat_map g l.
+Proof.
+  induction l as [|a l IH]; intros H; simpl; [reflexivity|].
+  rewrite (H a (or_introl eq_refl)), IH; [reflexivity|]. intros x Hx. apply H. right. assumption.
 Qed.
 
 Lemma existsb_eqb_In o l : existsb (Nat.eqb o) l = true <-> In o l.
@@ -141,4 +148,797 @@ Section StepProofs.
         * intros Hin2. exact (Hdis o Hin Hin2).
       + rewrite N1, Ex. reflexivity.
   Qed.
+
+  (* ---- phase 2 ------------------------------------------------------------ *)
+
+  Definition paired (ts : Z) (t : tbl) (rv : V) (o : nat) : list (nat * V) :=
+    if (lhT V (nth o t dslot) =? ts)%Z then emit o (op (sval V (nth o t dslot)) rv) else [].
+
+  Lemma rhs_write_spec ts id rv : ts <> noT -> forall outs (t : tbl) acc,
+    NoDup outs ->
+    (forall o, In o outs -> rhT V (nth o t dslot) <> ts) ->
+    exists t1, rhs_write ts id rv outs t acc = inl (t1, acc ++ flat_map (paired ts t rv) outs) /\
+      length t1 = length t /\
+      (forall o, lhT V (nth o t1 dslot) = lhT V (nth o t dslot) /\ sval V (nth o t1 dslot) = sval V (nth o t dslot) /\
+                 (rhT V (nth o t1 dslot) = rhT V (nth o t dslot) \/ rhT V (nth o t1 dslot) = ts)) /\
+      (forall o, ~ In o outs -> nth o t1 dslot = nth o t dslot).
+  Proof.
+    intros Hts. induction outs as [|o1 outs IH]; intros t acc Hnd Hok; simpl.
+    - exists t. rewrite app_nil_r. repeat split; auto.
+    - inversion Hnd as [|? ? Hnotin Hnd']; subst.
+      unfold paired at 1.
+      destruct (Z.eqb_spec (lhT V (nth o1 t dslot)) ts) as [E|NE]; simpl.
+      + destruct (Z.eqb_spec (rhT V (nth o1 t dslot)) ts) as [E2|_];
+          [exfalso; exact (Hok o1 (or_introl eq_refl) E2)|].
+        rewrite andb_false_r.
+        assert (Hlen : o1 < length t).
+        { destruct (Nat.lt_ge_cases o1 (length t)) as [Hl|Hg]; [assumption|].
+          rewrite nth_overflow in E by assumption. simpl in E. congruence. }
+        set (t' := set_nth t o1 (mkSlot V (lhT V (nth o1 t dslot)) ts (lhID V (nth o1 t dslot)) id (sval V (nth o1 t dslot)))).
+        destruct (IH t' (acc ++ emit o1 (op (sval V (nth o1 t dslot)) rv)) Hnd') as [t1 [E1 [L1 [P1 U1]]]].
+        { intros o Ho. unfold t'. rewrite nth_set_nth_other; [apply Hok; right; assumption|].
+          intros ->. contradiction. }
+        exists t1. split.
+        * assert (Hfm : flat_map (paired ts t' rv) outs = flat_map (paired ts t rv) outs).
+          { apply flat_map_ext_in. intros o Ho. unfold paired, t'.
+            rewrite nth_set_nth_other; [reflexivity|]. intros ->. contradiction. }
+          rewrite E1, Hfm, <- app_assoc. reflexivity.
+        * split; [unfold t' in L1; rewrite set_nth_length in L1; exact L1|]. split.
+          -- intros o. destruct (P1 o) as [A [B C]]. rewrite A, B. unfold t' in *.
+             destruct (Nat.eq_dec o1 o) as [->|Hne].
+             ++ rewrite nth_set_nth_same in * by assumption. simpl in *. repeat split; auto. destruct C; auto.
+             ++ rewrite nth_set_nth_other in * by assumption. repeat split; auto.
+          -- intros o Hno. rewrite U1 by (intros Hin; apply Hno; right; assumption).
+             unfold t'. apply nth_set_nth_other. intros ->. apply Hno. left. reflexivity.
+      + destruct (IH t acc Hnd') as [t1 [E1 [L1 [P1 U1]]]].
+        { intros o Ho. apply Hok. right. assumption. }
+        exists t1. split; [exact E1|]. split; [exact L1|]. split; [exact P1|].
+        intros o Hno. apply U1. intros Hin. apply Hno. right. assumption.
+  Qed.
+
+  Lemma rhs_phase_spec ts : ts <> noT -> forall (vec : list (nat * V)) (t : tbl) acc,
+    NoDup (all_outs rhs_outs vec) ->
+    (forall o, In o (all_outs rhs_outs vec) -> rhT V (nth o t dslot) <> ts) ->
+    exists t1, rhs_phase ts vec t acc =
+               inl (t1, acc ++ flat_map (fun rs => flat_map (paired ts t (snd rs)) (rhs_outs (fst rs))) vec) /\
+      length t1 = length t /\
+      (forall o, lhT V (nth o t1 dslot) = lhT V (nth o t dslot) /\ sval V (nth o t1 dslot) = sval V (nth o t dslot) /\
+                 (rhT V (nth o t1 dslot) = rhT V (nth o t dslot) \/ rhT V (nth o t1 dslot) = ts)).
+  Proof.
+    intros Hts. induction vec as [|[id rv] vec IH]; intros t acc Hnd Hok; simpl.
+    - exists t. rewrite app_nil_r. repeat split; auto.
+    - unfold all_outs in Hnd, Hok. simpl in Hnd, Hok.
+      destruct (NoDup_app_inv _ _ Hnd) as [Hnd1 [Hnd2 Hdis]].
+      destruct (rhs_write_spec ts id rv Hts (rhs_outs id) t acc Hnd1) as [t1 [E1 [L1 [P1 U1]]]].
+      { intros o Ho. apply Hok. apply in_or_app. left. exact Ho. }
+      rewrite E1.
+      destruct (IH t1 (acc ++ flat_map (paired ts t rv) (rhs_outs id)) Hnd2) as [t2 [E2 [L2 P2]]].
+      { intros o Ho. rewrite U1; [apply Hok; apply in_or_app; right; exact Ho|].
+        intros Hin. exact (Hdis o Hin Ho). }
+      exists t2. split.
+      * assert (Hfm : flat_map (fun rs => flat_map (paired ts t1 (snd rs)) (rhs_outs (fst rs))) vec =
+                      flat_map (fun rs => flat_map (paired ts t (snd rs)) (rhs_outs (fst rs))) vec).
+        { apply flat_map_ext_in. intros rs _. apply flat_map_ext_in. intros o _.
+          unfold paired. destruct (P1 o) as [A [B _]]. rewrite A, B. reflexivity. }
+        rewrite E2, Hfm, <- app_assoc. reflexivity.
+      * split; [lia|]. intros o. destruct (P2 o) as [A [B C]]. destruct (P1 o) as [A' [B' C']]. rewrite A, B, A', B'.
+        repeat split; auto. destruct C as [C|C]; [rewrite C; exact C'|right; exact C].
+  Qed.
+
+  (* ---- one step, and all steps of a query ---------------------------------- *)
+
+  Notation exec_step := (exec_step V dflt op b2v c return_bool hidx lidx).
+  Notation exec_steps := (exec_steps V dflt op b2v c return_bool hidx lidx).
+  Notation pure_step := (pure_step V op b2v c return_bool hidx lidx).
+
+  (* every tag in the table is older than [b] *)
+  Definition tags_lt (t : tbl) (b : Z) : Prop :=
+    forall o, (lhT V (nth o t dslot) < b /\ rhT V (nth o t dslot) < b)%Z.
+
+  (* no two samples of a step vector feed the same output slot, and the slots exist *)
+  Definition step_ok (t : tbl) (lhs rhs : list (nat * V)) : Prop :=
+    NoDup (all_outs lhs_outs lhs) /\ (forall o, In o (all_outs lhs_outs lhs) -> o < length t) /\
+    NoDup (all_outs rhs_outs rhs).
+
+  Theorem exec_step_pure ts lhs rhs (t : tbl) :
+    (noT < ts)%Z -> tags_lt t ts -> step_ok t lhs rhs ->
+    exists t', exec_step ts lhs rhs t = inl (t', pure_step lhs rhs) /\ length t' = length t /\ tags_lt t' (ts + 1).
+  Proof.
+    intros Hts Htags [Hnd1 [Hrange Hnd2]]. unfold Bin.exec_step.
+    destruct (lhs_phase_spec ts lhs t Hnd1) as [t1 [E1 [L1 N1]]].
+    { intros o Ho. split; [apply Hrange; assumption|]. destruct (Htags o). lia. }
+    rewrite E1.
+    assert (Hr1 : forall o, rhT V (nth o t1 dslot) = rhT V (nth o t dslot)).
+    { intros o. rewrite N1. destruct (find (feeds o lhs_outs) lhs); reflexivity. }
+    destruct (rhs_phase_spec ts ltac:(lia) rhs t1 [] Hnd2) as [t2 [E2 [L2 P2]]].
+    { intros o _. rewrite Hr1. destruct (Htags o). lia. }
+    exists t2. split.
+    - rewrite E2. simpl. f_equal. f_equal. unfold Bin.pure_step.
+      apply flat_map_ext_in. intros rs _. apply flat_map_ext_in. intros o _.
+      unfold paired. rewrite N1. destruct (find (feeds o lhs_outs) lhs) as [iv|]; simpl.
+      + rewrite Z.eqb_refl. reflexivity.
+      + destruct (Z.eqb_spec (lhT V (nth o t dslot)) ts) as [E|_]; [|reflexivity].
+        destruct (Htags o). lia.
+    - split; [lia|]. intros o. destruct (P2 o) as [A [_ C]]. rewrite A.
+      assert (Hl : (lhT V (nth o t1 dslot) < ts + 1)%Z).
+      { rewrite N1. destruct (find (feeds o lhs_outs) lhs); simpl; [lia|]. destruct (Htags o). lia. }
+      split; [exact Hl|]. destruct C as [C|C]; rewrite C; [rewrite Hr1; destruct (Htags o); lia|lia].
+  Qed.
+
+  (* the steps of a query: strictly increasing timestamps *)
+  Fixpoint steps_ok (n : nat) (prev : Z) (steps : list (Z * list (nat * V) * list (nat * V))) : Prop :=
+    match steps with
+    | [] => True
+    | (ts, lhs, rhs) :: r =>
+        (prev < ts)%Z /\ NoDup (all_outs lhs_outs lhs) /\ (forall o, In o (all_outs lhs_outs lhs) -> o < n) /\
+        NoDup (all_outs rhs_outs rhs) /\ steps_ok n ts r
+    end.
+
+  Theorem exec_steps_pure : forall steps (t : tbl) prev,
+    (noT <= prev)%Z -> tags_lt t (prev + 1) -> steps_ok (length t) prev steps ->
+    exec_steps steps t = inl (map (fun s => (fst (fst s), pure_step (snd (fst s)) (snd s))) steps).
+  Proof.
+    induction steps as [|[[ts lhs] rhs] steps IH]; intros t prev Hp Htags Hok; simpl; [reflexivity|].
+    destruct Hok as [Hlt [Hnd1 [Hr [Hnd2 Hrest]]]].
+    destruct (exec_step_pure ts lhs rhs t) as [t' [E [L T]]].
+    - lia.
+    - intros o. destruct (Htags o). lia.
+    - repeat split; assumption.
+    - rewrite E. rewrite (IH t' ts); [reflexivity|lia|exact T|rewrite L; exact Hrest].
+  Qed.
+
+  (* a fresh table *)
+  Lemma new_table_tags n b : (noT < b)%Z -> tags_lt (new_table V dflt n) b.
+  Proof.
+    intros Hb o. unfold new_table.
+    assert (E : nth o (repeat dslot n) dslot = dslot).
+    { destruct (Nat.lt_ge_cases o n) as [Hl|Hg]; [apply nth_repeat|apply nth_overflow; rewrite repeat_length; assumption]. }
+    rewrite E. simpl. lia.
+  Qed.
 End StepProofs.
+
+(* ---- the join indexes ------------------------------------------------------ *)
+
+Section JoinProofs.
+  Variable sigf : labels -> labels.
+  Variable lblf : labels -> labels.
+  Variable incl : list N.
+  Variable return_bool : bool.
+  Variable hi lo : list labels.
+
+  Notation key_eq := (key_eq sigf).
+  Notation matched := (matched sigf lo).
+  Notation first_lo := (first_lo sigf lo).
+  Notation hi_index_from := (hi_index_from sigf lo).
+  Notation hi_index := (hi_index sigf hi lo).
+  Notation lo_index := (lo_index sigf hi lo).
+  Notation out_series := (out_series sigf lblf incl return_bool hi lo).
+
+  Definition rank (hs : list labels) (h : nat) : nat := length (filter matched (firstn h hs)).
+
+  Lemma hi_index_from_length next hs : length (hi_index_from next hs) = length hs.
+  Proof. revert next. induction hs as [|x hs IH]; intros next; simpl; [reflexivity|]. destruct (matched x); simpl; rewrite IH; reflexivity. Qed.
+
+  Lemma hi_index_from_spec : forall hs next h, h < length hs ->
+    nth h (hi_index_from next hs) None =
+    if matched (nth h hs []) then Some (next + rank hs h) else None.
+  Proof.
+    induction hs as [|x hs IH]; intros next h Hh; simpl in Hh; [lia|].
+    destruct h as [|h]; simpl.
+    - unfold rank. simpl. destruct (matched x); simpl; [f_equal; lia|reflexivity].
+    - unfold rank. simpl. destruct (matched x) eqn:Ex; simpl; rewrite IH by lia; unfold rank;
+        destruct (matched (nth h hs [])); try reflexivity; f_equal; lia.
+  Qed.
+
+  Lemma hi_index_spec h : h < length hi ->
+    nth h hi_index None = if matched (nth h hi []) then Some (rank hi h) else None.
+  Proof. intros Hh. unfold Bin.hi_index. rewrite hi_index_from_spec by assumption. reflexivity. Qed.
+
+  Lemma hi_index_overflow h : length hi <= h -> nth h hi_index None = None.
+  Proof. intros Hh. apply nth_overflow. unfold Bin.hi_index. rewrite hi_index_from_length. assumption. Qed.
+
+  Lemma matched_first_lo h : matched h = true <-> exists l, first_lo h = Some l.
+  Proof.
+    unfold Bin.matched, Bin.first_lo. split.
+    - intros H. apply existsb_exists in H. destruct H as [l [Hl Hk]].
+      destruct (find (key_eq h) lo) as [l'|] eqn:Ef; [exists l'; reflexivity|].
+      exfalso. pose proof (find_none _ _ Ef l Hl) as Hn. congruence.
+    - intros [l Hf]. apply find_some in Hf. apply existsb_exists. exists l. exact Hf.
+  Qed.
+
+  (* the rank of a matched series is a valid output ID and names its output series *)
+  Lemma out_series_rank : forall h l, h < length hi -> first_lo (nth h hi []) = Some l ->
+    nth_error out_series (rank hi h) = Some (build_output incl return_bool (lblf (nth h hi [])) l).
+  Proof.
+    unfold Bin.out_series, rank. generalize hi. intros hs0.
+    induction hs0 as [|x hs IH]; intros h l Hh Hf; simpl in Hh; [lia|].
+    destruct h as [|h]; simpl in *.
+    - rewrite Hf. reflexivity.
+    - destruct (matched x) eqn:Ex.
+      + apply matched_first_lo in Ex. destruct Ex as [l' El]. rewrite El. simpl. apply IH; [lia|assumption].
+      + destruct (Bin.first_lo sigf lo x) as [l'|] eqn:El.
+        * assert (matched x = true) by (apply matched_first_lo; exists l'; exact El). congruence.
+        * simpl. apply IH; [lia|assumption].
+  Qed.
+
+  Lemma rank_lt_injective h1 h2 : h1 < h2 -> h2 < length hi -> matched (nth h1 hi []) = true -> rank hi h1 < rank hi h2.
+  Proof.
+    unfold rank. generalize hi. intros hs0. revert h1 h2.
+    induction hs0 as [|x hs IH]; intros h1 h2 H12 Hh2 Hm.
+    - simpl in Hh2. lia.
+    - destruct h2 as [|h2]; [lia|]. destruct h1 as [|h1]; simpl in *.
+      + rewrite Hm. simpl. lia.
+      + assert (Hlt : length (filter matched (firstn h1 hs)) < length (filter matched (firstn h2 hs))) by (apply IH; [lia|lia|assumption]).
+        destruct (matched x); simpl; lia.
+  Qed.
+
+  Lemma rank_injective h1 h2 : h1 < length hi -> h2 < length hi ->
+    matched (nth h1 hi []) = true -> matched (nth h2 hi []) = true -> rank hi h1 = rank hi h2 -> h1 = h2.
+  Proof.
+    intros H1 H2 M1 M2 E. destruct (Nat.lt_trichotomy h1 h2) as [Hlt|[Heq|Hgt]]; [|assumption|].
+    - pose proof (rank_lt_injective h1 h2 Hlt H2 M1). lia.
+    - pose proof (rank_lt_injective h2 h1 Hgt H1 M2). lia.
+  Qed.
+
+  (* a low-cardinality series feeds exactly the outputs of the high-cardinality series with its signature *)
+  Lemma lo_index_In l o : l < length lo ->
+    (In o (nth l lo_index []) <->
+     exists h, h < length hi /\ nth h hi_index None = Some o /\ key_eq (nth h hi []) (nth l lo []) = true).
+  Proof.
+    intros Hl. unfold Bin.lo_index.
+    rewrite (nth_indep _ [] (flat_map (fun ho : labels * option nat =>
+                match snd ho with Some o0 => if key_eq (fst ho) [] then [o0] else [] | None => [] end)
+                (combine hi hi_index))) by (rewrite map_length; assumption).
+    rewrite (map_nth (fun l0 => flat_map (fun ho : labels * option nat =>
+                match snd ho with Some o0 => if key_eq (fst ho) l0 then [o0] else [] | None => [] end)
+                (combine hi hi_index)) lo [] l).
+    rewrite in_flat_map. split.
+    - intros [[hl ho] [Hin Ho]]. simpl in Ho. destruct ho as [o'|]; [|destruct Ho].
+      destruct (key_eq hl (nth l lo [])) eqn:Ek; [|destruct Ho]. destruct Ho as [->|[]].
+      apply In_nth with (d := ([], None)) in Hin. destruct Hin as [h [Hh Hn]].
+      rewrite combine_length in Hh. rewrite combine_nth in Hn by (unfold Bin.hi_index; rewrite hi_index_from_length; reflexivity).
+      inversion Hn; subst. exists h. split; [lia|]. split; [reflexivity|exact Ek].
+    - intros [h [Hh [Hn Hk]]]. exists (nth h hi [], Some o). split.
+      + rewrite <- Hn. rewrite <- combine_nth by (unfold Bin.hi_index; rewrite hi_index_from_length; reflexivity).
+        apply nth_In. rewrite combine_length. unfold Bin.hi_index. rewrite hi_index_from_length. lia.
+      + simpl. rewrite Hk. left. reflexivity.
+  Qed.
+
+  Lemma lo_list_from_NoDup l : forall hs next,
+    let L := flat_map (fun ho : labels * option nat =>
+                         match snd ho with Some o => if key_eq (fst ho) l then [o] else [] | None => [] end)
+                      (combine hs (hi_index_from next hs)) in
+    NoDup L /\ forall o, In o L -> next <= o.
+  Proof.
+    induction hs as [|x hs IH]; intros next; simpl; [split; [constructor|intros o []]|].
+    destruct (matched x); simpl.
+    - destruct (IH (S next)) as [Hnd Hge]. destruct (key_eq x l); simpl.
+      + split.
+        * constructor; [|exact Hnd]. intros Hin. apply Hge in Hin. lia.
+        * intros o [<-|Ho]; [lia|]. apply Hge in Ho. lia.
+      + split; [exact Hnd|]. intros o Ho. apply Hge in Ho. lia.
+    - destruct (IH next) as [Hnd Hge]. split; assumption.
+  Qed.
+
+  Lemma lo_index_NoDup l : NoDup (nth l lo_index []).
+  Proof.
+    destruct (Nat.lt_ge_cases l (length lo)) as [Hl|Hg].
+    - unfold Bin.lo_index.
+      rewrite (nth_indep _ [] (flat_map (fun ho : labels * option nat =>
+                  match snd ho with Some o0 => if key_eq (fst ho) [] then [o0] else [] | None => [] end)
+                  (combine hi hi_index))) by (rewrite map_length; assumption).
+      rewrite (map_nth (fun l0 => flat_map (fun ho : labels * option nat =>
+                  match snd ho with Some o0 => if key_eq (fst ho) l0 then [o0] else [] | None => [] end)
+                  (combine hi hi_index)) lo [] l).
+      apply (lo_list_from_NoDup (nth l lo []) hi 0).
+    - rewrite nth_overflow; [constructor|]. unfold Bin.lo_index. rewrite map_length. assumption.
+  Qed.
+End JoinProofs.
+
+(* ---- general list facts ----------------------------------------------------- *)
+
+Lemma NoDup_flat_map {A B} (f : A -> list B) (l : list A) :
+  NoDup l -> (forall x, In x l -> NoDup (f x)) ->
+  (forall x y b, In x l -> In y l -> In b (f x) -> In b (f y) -> x = y) ->
+  NoDup (flat_map f l).
+Proof.
+  induction l as [|a l IH]; intros Hnd Hin Hdis; simpl; [constructor|].
+  inversion Hnd as [|? ? Hna Hnd']; subst.
+  assert (IH' : NoDup (flat_map f l)).
+  { apply IH; [assumption|intros x Hx; apply Hin; right; assumption|].
+    intros x y b Hx Hy; apply Hdis; right; assumption. }
+  assert (Ha : NoDup (f a)) by (apply Hin; left; reflexivity).
+  revert Ha. generalize (fun b Hb => fun y Hy Hby => Hdis a y b (or_introl eq_refl) (or_intror Hy) Hb Hby).
+  generalize (f a). intros fa Hfa Ha. induction fa as [|b fa IHf]; simpl; [assumption|].
+  inversion Ha as [|? ? Hnb Ha']; subst. constructor.
+  - intros Hb. apply in_app_or in Hb. destruct Hb as [Hb|Hb]; [contradiction|].
+    apply in_flat_map in Hb. destruct Hb as [y [Hy Hby]].
+    assert (a = y) by (apply (Hfa b (or_introl eq_refl) y Hy Hby)). subst. contradiction.
+  - apply IHf; [|assumption]. intros b' Hb' y Hy Hby. apply (Hfa b' (or_intror Hb') y Hy Hby).
+Qed.
+
+Lemma NoDup_map_fst_unique {A B} (l : list (A * B)) x y :
+  NoDup (map fst l) -> In x l -> In y l -> fst x = fst y -> x = y.
+Proof.
+  induction l as [|a l IH]; intros Hnd Hx Hy E; [destruct Hx|].
+  simpl in Hnd. inversion Hnd as [|? ? Hna Hnd']; subst.
+  destruct Hx as [->|Hx], Hy as [->|Hy]; try reflexivity.
+  - exfalso. apply Hna. rewrite E. apply in_map. assumption.
+  - exfalso. apply Hna. rewrite <- E. apply in_map. assumption.
+  - apply IH; assumption.
+Qed.
+
+(* ---- the reference step: what a successful evaluation contains --------------- *)
+
+Section RefProofs.
+  Variable V : Type.
+  Variable op : V -> V -> V * bool.
+  Variable b2v : bool -> V.
+  Variable sigf : labels -> labels.
+  Variable result_metric : labels -> labels -> labels.
+  Variable c : card.
+  Variable return_bool : bool.
+
+  Notation sig_eq := (sig_eq sigf).
+  Notation ref_many := (ref_many V op b2v sigf result_metric c return_bool).
+
+  Definition ref_res (ls rs : labels * V) : V * bool :=
+    if is_one_to_many c then op (snd rs) (snd ls) else op (snd ls) (snd rs).
+
+  (* the sample a pair of matching samples contributes, if any *)
+  Definition ref_emits (ls rs : labels * V) (x : labels * V) : Prop :=
+    (return_bool = true \/ snd (ref_res ls rs) = true) /\
+    x = (result_metric (fst ls) (fst rs), if return_bool then b2v (snd (ref_res ls rs)) else fst (ref_res ls rs)).
+
+  Lemma ref_many_In one : forall many seen out,
+    ref_many many one seen = Some out ->
+    forall x, In x out <->
+              exists ls rs, In ls many /\ find (fun rs => sig_eq (fst ls) (fst rs)) one = Some rs /\ ref_emits ls rs x.
+  Proof.
+    induction many as [|ls many IH]; intros seen out H x; simpl in H.
+    - inversion H; subst. split; [intros []|intros [ls [rs [[] _]]]].
+    - destruct (find (fun rs => sig_eq (fst ls) (fst rs)) one) as [rs|] eqn:Ef.
+      + fold (ref_res ls rs) in H.
+        destruct (negb return_bool && negb (snd (ref_res ls rs))) eqn:Eskip.
+        * rewrite (IH _ _ H x). split.
+          -- intros [ls' [rs' [Hin R]]]. exists ls', rs'. split; [right; assumption|exact R].
+          -- intros [ls' [rs' [[<-|Hin] [Hf He]]]].
+             ++ exfalso. rewrite Ef in Hf. inversion Hf; subst rs'. destruct He as [[Hb|Hk] _].
+                ** rewrite Hb in Eskip. discriminate.
+                ** rewrite Hk in Eskip. rewrite andb_false_r in Eskip. discriminate.
+             ++ exists ls', rs'. tauto.
+        * match type of H with (if ?d then _ else _) = _ => destruct d end; [discriminate|].
+          match type of H with option_map _ ?r = _ => destruct r as [out'|] eqn:Er end; [|discriminate].
+          simpl in H. inversion H; subst out. simpl. rewrite (IH _ _ Er x). split.
+          -- intros [Hx|[ls' [rs' [Hin R]]]].
+             ++ exists ls, rs. split; [left; reflexivity|]. split; [exact Ef|].
+                split; [|symmetry; exact Hx].
+                destruct return_bool; [left; reflexivity|right]. simpl in Eskip.
+                destruct (snd (ref_res ls rs)); [reflexivity|discriminate].
+             ++ exists ls', rs'. split; [right; assumption|exact R].
+          -- intros [ls' [rs' [[<-|Hin] [Hf He]]]].
+             ++ left. rewrite Ef in Hf. inversion Hf; subst rs'. destruct He as [_ ->]. reflexivity.
+             ++ right. exists ls', rs'. tauto.
+      + rewrite (IH _ _ H x). split.
+        * intros [ls' [rs' [Hin R]]]. exists ls', rs'. split; [right; assumption|exact R].
+        * intros [ls' [rs' [[<-|Hin] [Hf He]]]]; [rewrite Ef in Hf; discriminate|]. exists ls', rs'. tauto.
+  Qed.
+End RefProofs.
+
+(* ---- the operator against the reference, one step --------------------------- *)
+
+Section OperatorProofs.
+  Variable V : Type.
+  Variable dflt : V.
+  Variable op : V -> V -> V * bool.
+  Variable b2v : bool -> V.
+  Variable on : bool.
+  Variable ml incl : list N.
+  Variable c : card.
+  Variable return_bool : bool.
+  Variable op_drops_name : bool.
+  Variable lhs_series rhs_series : list labels.
+
+  (* one-to-one and many-to-one (group_left): the left-hand side is the "many" side *)
+  Hypothesis Hc : is_one_to_many c = false.
+
+  Notation sg := (the_sig on ml).
+  Notation lb := (the_lbl on ml c return_bool op_drops_name).
+  Notation hidx := (op_hidx on ml c lhs_series rhs_series).
+  Notation lidx := (op_lidx on ml c lhs_series rhs_series).
+  Notation oseries := (op_series on ml incl c return_bool op_drops_name lhs_series rhs_series).
+  Notation pure := (pure_step V op b2v c return_bool hidx lidx).
+  Notation rmetric := (ref_result_metric op_drops_name return_bool c on ml incl).
+
+  Lemma hi_is_lhs : hi_series c lhs_series rhs_series = lhs_series.
+  Proof. unfold hi_series. rewrite Hc. reflexivity. Qed.
+  Lemma lo_is_rhs : lo_series c lhs_series rhs_series = rhs_series.
+  Proof. unfold lo_series. rewrite Hc. reflexivity. Qed.
+
+  Lemma key_eq_iff a b : key_eq sg a b = true <-> sg a = sg b.
+  Proof. unfold key_eq. apply labels_eqb_eq. Qed.
+
+  Lemma hidx_spec h : h < length lhs_series ->
+    nth h hidx None = if matched sg rhs_series (nth h lhs_series []) then Some (rank sg rhs_series lhs_series h) else None.
+  Proof. intros Hh. unfold op_hidx. rewrite hi_is_lhs, lo_is_rhs. apply hi_index_spec. assumption. Qed.
+
+  Lemma hidx_some h o : nth h hidx None = Some o ->
+    h < length lhs_series /\ matched sg rhs_series (nth h lhs_series []) = true /\ o = rank sg rhs_series lhs_series h.
+  Proof.
+    intros H. destruct (Nat.lt_ge_cases h (length lhs_series)) as [Hl|Hg].
+    - rewrite hidx_spec in H by assumption.
+      destruct (matched sg rhs_series (nth h lhs_series [])); [|discriminate]. inversion H. auto.
+    - unfold op_hidx in H. rewrite hi_is_lhs, lo_is_rhs in H. rewrite hi_index_overflow in H by assumption. discriminate.
+  Qed.
+
+  Lemma hidx_inj h1 h2 o : nth h1 hidx None = Some o -> nth h2 hidx None = Some o -> h1 = h2.
+  Proof.
+    intros H1 H2. apply hidx_some in H1. apply hidx_some in H2.
+    destruct H1 as [L1 [M1 E1]], H2 as [L2 [M2 E2]].
+    apply (rank_injective sg lhs_series rhs_series); [exact L1|exact L2|exact M1|exact M2|].
+    rewrite <- E1, <- E2. reflexivity.
+  Qed.
+
+  Lemma lidx_In l o : l < length rhs_series ->
+    (In o (nth l lidx []) <->
+     exists h, nth h hidx None = Some o /\ sg (nth h lhs_series []) = sg (nth l rhs_series [])).
+  Proof.
+    intros Hl. unfold op_lidx, op_hidx. rewrite hi_is_lhs, lo_is_rhs.
+    rewrite lo_index_In by assumption. split.
+    - intros [h [_ [Hn Hk]]]. exists h. split; [assumption|apply key_eq_iff; assumption].
+    - intros [h [Hn Hk]]. exists h. split.
+      + pose proof Hn as Hn'. unfold op_hidx in *. 
+        destruct (Nat.lt_ge_cases h (length lhs_series)) as [Hlt|Hge]; [assumption|].
+        rewrite hi_index_overflow in Hn by assumption. discriminate.
+      + split; [assumption|apply key_eq_iff; assumption].
+  Qed.
+
+  Variable lhs rhs : list (nat * V).
+  Hypothesis Hids_l : forall iv, In iv lhs -> fst iv < length lhs_series.
+  Hypothesis Hids_r : forall iv, In iv rhs -> fst iv < length rhs_series.
+  Hypothesis Hnd_l : NoDup (map fst lhs).
+  Hypothesis Hnd_r : NoDup (map fst rhs).
+
+  Definition emitted (ls rs : nat * V) (v : V) : Prop :=
+    (return_bool = true \/ snd (op (snd ls) (snd rs)) = true) /\
+    v = if return_bool then b2v (snd (op (snd ls) (snd rs))) else fst (op (snd ls) (snd rs)).
+
+  Lemma emit_In o r v : In (o, v) (emit V b2v return_bool o r) <->
+    (return_bool = true \/ snd r = true) /\ v = if return_bool then b2v (snd r) else fst r.
+  Proof.
+    unfold emit. destruct return_bool; simpl.
+    - split; [intros [H|[]]; inversion H; auto|intros [_ ->]; left; reflexivity].
+    - destruct (snd r); simpl.
+      + split; [intros [H|[]]; inversion H; auto|intros [_ ->]; left; reflexivity].
+      + split; [intros []|intros [[H|H] _]; discriminate].
+  Qed.
+
+  Lemma emit_fst o r x : In x (emit V b2v return_bool o r) -> fst x = o.
+  Proof.
+    unfold emit. destruct return_bool; [simpl; intros [<-|[]]; reflexivity|].
+    destruct (snd r); simpl; [intros [<-|[]]; reflexivity|intros []].
+  Qed.
+
+  (* what the engine's step contains: one sample per pair of present samples with equal signatures *)
+  Lemma pure_step_In o v :
+    In (o, v) (pure lhs rhs) <->
+    exists ls rs, In ls lhs /\ In rs rhs /\ nth (fst ls) hidx None = Some o /\
+                  sg (nth (fst ls) lhs_series []) = sg (nth (fst rs) rhs_series []) /\ emitted ls rs v.
+  Proof.
+    unfold pure_step, lhs_outs, rhs_outs. rewrite Hc. split.
+    - intros H. apply in_flat_map in H. destruct H as [rs [Hrs H]].
+      apply in_flat_map in H. destruct H as [o' [Ho' H]].
+      destruct (find (feeds V o' (hi_outs hidx)) lhs) as [ls|] eqn:Ef; [|destruct H].
+      assert (o' = o) by (apply emit_fst in H; simpl in H; congruence). subst o'.
+      apply find_some in Ef. destruct Ef as [Hls Hfeed].
+      unfold feeds, hi_outs in Hfeed. apply existsb_eqb_In in Hfeed.
+      destruct (nth (fst ls) hidx None) as [o1|] eqn:En; [|destruct Hfeed].
+      destruct Hfeed as [<-|[]].
+      unfold lo_outs in Ho'. apply lidx_In in Ho'; [|apply Hids_r; assumption].
+      destruct Ho' as [h [Hn Hk]]. assert (h = fst ls) by (eapply hidx_inj; eauto). subst h.
+      exists ls, rs. repeat split; auto; apply emit_In in H; destruct H; auto.
+    - intros [ls [rs [Hls [Hrs [Hn [Hk [He Hv]]]]]]].
+      apply in_flat_map. exists rs. split; [assumption|].
+      apply in_flat_map. exists o. split.
+      + unfold lo_outs. apply lidx_In; [apply Hids_r; assumption|]. exists (fst ls). auto.
+      + assert (Hfeed : feeds V o (hi_outs hidx) ls = true).
+        { unfold feeds, hi_outs. rewrite Hn. simpl. rewrite Nat.eqb_refl. reflexivity. }
+        destruct (find (feeds V o (hi_outs hidx)) lhs) as [ls'|] eqn:Ef.
+        * apply find_some in Ef. destruct Ef as [Hls' Hfeed'].
+          unfold feeds, hi_outs in Hfeed'. apply existsb_eqb_In in Hfeed'.
+          destruct (nth (fst ls') hidx None) as [o1|] eqn:En'; [|destruct Hfeed'].
+          destruct Hfeed' as [<-|[]].
+          assert (Hfst : fst ls' = fst ls) by (eapply hidx_inj; eauto).
+          assert (ls' = ls) by (apply (NoDup_map_fst_unique lhs); assumption). subst ls'.
+          apply emit_In. split; assumption.
+        * pose proof (find_none _ _ Ef ls Hls). congruence.
+  Qed.
+
+  (* series-level hypothesis: the signatures of the "one" side's series are pairwise distinct *)
+  Hypothesis A1 : forall i j, i < length rhs_series -> j < length rhs_series ->
+    sg (nth i rhs_series []) = sg (nth j rhs_series []) -> i = j.
+  (* the output labels are the reference's result metric (labels_agree below) *)
+  Hypothesis HL : forall h l, h < length lhs_series -> l < length rhs_series ->
+    build_output incl return_bool (lb (nth h lhs_series [])) (nth l rhs_series []) =
+    rmetric (nth h lhs_series []) (nth l rhs_series []).
+
+  Lemma first_lo_unique h l : l < length rhs_series ->
+    sg (nth h lhs_series []) = sg (nth l rhs_series []) ->
+    first_lo sg rhs_series (nth h lhs_series []) = Some (nth l rhs_series []).
+  Proof.
+    intros Hl Hs. unfold first_lo. destruct (find (key_eq sg (nth h lhs_series [])) rhs_series) as [x|] eqn:Ef.
+    - apply find_some in Ef. destruct Ef as [Hin Hk]. apply key_eq_iff in Hk.
+      apply In_nth with (d := []) in Hin. destruct Hin as [l' [Hl' <-]].
+      f_equal. f_equal. apply A1; [assumption|assumption|congruence].
+    - pose proof (find_none _ _ Ef (nth l rhs_series []) (nth_In _ _ Hl)) as Hn.
+      apply key_eq_iff in Hs. congruence.
+  Qed.
+
+  Lemma out_label h l o : nth h hidx None = Some o -> l < length rhs_series ->
+    sg (nth h lhs_series []) = sg (nth l rhs_series []) ->
+    nth o oseries [] = rmetric (nth h lhs_series []) (nth l rhs_series []).
+  Proof.
+    intros Hn Hl Hs. apply hidx_some in Hn. destruct Hn as [Hh [_ ->]].
+    rewrite <- HL by assumption.
+    apply nth_error_nth. unfold op_series. rewrite hi_is_lhs, lo_is_rhs.
+    apply out_series_rank; [assumption|]. apply first_lo_unique; assumption.
+  Qed.
+
+  Lemma find_one (ls rs : nat * V) : In rs rhs ->
+    sg (nth (fst ls) lhs_series []) = sg (nth (fst rs) rhs_series []) ->
+    find (fun rs' => sig_eq sg (nth (fst ls) lhs_series []) (fst rs')) (labelled V rhs_series rhs) =
+    Some (nth (fst rs) rhs_series [], snd rs).
+  Proof.
+    intros Hrs Hs.
+    destruct (find (fun rs' => sig_eq sg (nth (fst ls) lhs_series []) (fst rs')) (labelled V rhs_series rhs)) as [x|] eqn:Ef.
+    - apply find_some in Ef. destruct Ef as [Hin Hk]. unfold labelled in Hin. apply in_map_iff in Hin.
+      destruct Hin as [r2 [<- Hr2]]. simpl in Hk. apply labels_eqb_eq in Hk.
+      assert (Hf : fst r2 = fst rs) by (apply A1; [apply Hids_r; assumption|apply Hids_r; assumption|congruence]).
+      assert (r2 = rs) by (apply (NoDup_map_fst_unique rhs); assumption). subst. reflexivity.
+    - assert (Hin : In (nth (fst rs) rhs_series [], snd rs) (labelled V rhs_series rhs)).
+      { unfold labelled. apply in_map_iff. exists rs. split; [reflexivity|assumption]. }
+      pose proof (find_none _ _ Ef _ Hin) as Hn. simpl in Hn. unfold sig_eq in Hn.
+      apply labels_eqb_eq in Hs. congruence.
+  Qed.
+
+  (* One step of the operator, as the table-free pairing, contains exactly the
+     samples of the reference engine's VectorBinop on the same labelled inputs. *)
+  Theorem operator_step_matches_reference out :
+    ref_operator_step V op b2v on ml incl c return_bool op_drops_name lhs_series rhs_series lhs rhs = Some out ->
+    forall m v,
+      In (m, v) (relabel V on ml incl c return_bool op_drops_name lhs_series rhs_series (pure lhs rhs)) <-> In (m, v) out.
+  Proof.
+    intros Href m v. unfold ref_operator_step, ref_step in Href. rewrite Hc in Href.
+    destruct (has_dup_sig V sg (labelled V rhs_series rhs)); [discriminate|].
+    pose proof (ref_many_In V op b2v sg rmetric c return_bool _ _ _ _ Href (m, v)) as R.
+    rewrite R. clear R. unfold relabel. rewrite in_map_iff. split.
+    - intros [[o v'] [Heq Hin]]. simpl in Heq. inversion Heq; subst m v'. clear Heq.
+      apply pure_step_In in Hin. destruct Hin as [ls [rs [Hls [Hrs [Hn [Hs [He Hv]]]]]]].
+      exists (nth (fst ls) lhs_series [], snd ls), (nth (fst rs) rhs_series [], snd rs).
+      split; [unfold labelled; apply in_map_iff; exists ls; split; [reflexivity|assumption]|].
+      split; [apply find_one; assumption|].
+      unfold ref_emits, ref_res. rewrite Hc. simpl. split; [exact He|].
+      f_equal; [|exact Hv]. apply (out_label (fst ls) (fst rs)); [assumption|apply Hids_r; assumption|assumption].
+    - intros [ls' [rs' [Hin [Hf He]]]]. unfold labelled in Hin. apply in_map_iff in Hin.
+      destruct Hin as [ls [<- Hls]]. simpl in Hf.
+      apply find_some in Hf. destruct Hf as [Hin' Hk]. unfold labelled in Hin'. apply in_map_iff in Hin'.
+      destruct Hin' as [rs [<- Hrs]]. simpl in Hk. apply labels_eqb_eq in Hk.
+      assert (Hm : matched sg rhs_series (nth (fst ls) lhs_series []) = true).
+      { unfold matched. apply existsb_exists. exists (nth (fst rs) rhs_series []).
+        split; [apply nth_In; apply Hids_r; assumption|apply key_eq_iff; assumption]. }
+      pose proof (hidx_spec (fst ls) (Hids_l ls Hls)) as Hn. rewrite Hm in Hn.
+      unfold ref_emits, ref_res in He. rewrite Hc in He. simpl in He. destruct He as [He Hx].
+      exists (rank sg rhs_series lhs_series (fst ls), v). split.
+      + simpl. inversion Hx; subst. f_equal.
+        apply (out_label (fst ls) (fst rs)); [assumption|apply Hids_r; assumption|assumption].
+      + apply pure_step_In. exists ls, rs. repeat split; auto. inversion Hx; reflexivity.
+  Qed.
+
+  Lemma NoDup_of_map_fst {A B} (l : list (A * B)) : NoDup (map fst l) -> NoDup l.
+  Proof. apply NoDup_map_inv. Qed.
+
+  (* the hypotheses of the table theorem follow from the same facts *)
+  Theorem operator_step_ok (t : tbl V) : length t = length oseries ->
+    step_ok V c hidx lidx t lhs rhs.
+  Proof.
+    intros Hlen. unfold step_ok, all_outs, lhs_outs, rhs_outs. rewrite Hc. split; [|split].
+    - apply NoDup_flat_map.
+      + apply NoDup_of_map_fst. assumption.
+      + intros x _. unfold hi_outs. destruct (nth (fst x) hidx None); repeat constructor. intros [].
+      + intros x y o Hx Hy Hox Hoy. unfold hi_outs in Hox, Hoy.
+        destruct (nth (fst x) hidx None) as [o1|] eqn:E1; [|destruct Hox].
+        destruct (nth (fst y) hidx None) as [o2|] eqn:E2; [|destruct Hoy].
+        destruct Hox as [<-|[]]. destruct Hoy as [->|[]].
+        apply (NoDup_map_fst_unique lhs); [assumption|assumption|assumption|]. eapply hidx_inj; eauto.
+    - intros o Ho. apply in_flat_map in Ho. destruct Ho as [x [Hx Ho]]. unfold hi_outs in Ho.
+      destruct (nth (fst x) hidx None) as [o1|] eqn:E1; [|destruct Ho]. destruct Ho as [<-|[]].
+      rewrite Hlen. apply hidx_some in E1. destruct E1 as [Hh [Hm ->]].
+      apply matched_first_lo in Hm. destruct Hm as [l Hf].
+      pose proof (out_series_rank sg lb incl return_bool lhs_series rhs_series (fst x) l Hh Hf) as Hr.
+      unfold op_series. rewrite hi_is_lhs, lo_is_rhs.
+      apply nth_error_Some. rewrite Hr. discriminate.
+    - apply NoDup_flat_map.
+      + apply NoDup_of_map_fst. assumption.
+      + intros x _. unfold lo_outs, op_lidx. apply lo_index_NoDup.
+      + intros x y o Hx Hy Hox Hoy. unfold lo_outs in Hox, Hoy.
+        apply lidx_In in Hox; [|apply Hids_r; assumption]. apply lidx_In in Hoy; [|apply Hids_r; assumption].
+        destruct Hox as [h1 [N1 S1]]. destruct Hoy as [h2 [N2 S2]].
+        assert (h1 = h2) by (eapply hidx_inj; eauto). subst h2.
+        apply (NoDup_map_fst_unique rhs); [assumption|assumption|assumption|].
+        apply A1; [apply Hids_r; assumption|apply Hids_r; assumption|congruence].
+  Qed.
+End OperatorProofs.
+
+(* ---- output labels = the reference's resultMetric --------------------------- *)
+
+Lemma filter_comm {A} (p q : A -> bool) l : filter p (filter q l) = filter q (filter p l).
+Proof.
+  induction l as [|x l IH]; simpl; [reflexivity|].
+  destruct (p x) eqn:Ep, (q x) eqn:Eq; simpl; rewrite ?Ep, ?Eq, IH; reflexivity.
+Qed.
+
+Lemma del_name_idem l : del_name (del_name l) = del_name l.
+Proof.
+  unfold del_name. induction l as [|x l IH]; simpl; [reflexivity|].
+  destruct (negb (fst x =? 0)%N) eqn:E; simpl; rewrite ?E, IH; reflexivity.
+Qed.
+
+Lemma del_name_filter p l : del_name (filter p l) = filter p (del_name l).
+Proof. unfold del_name. apply filter_comm. Qed.
+
+Lemma filter_without_name ml l :
+  filter (fun kv : N * N => negb (mem_n (fst kv) (0%N :: ml))) (del_name l) =
+  filter (fun kv => negb (mem_n (fst kv) ml)) (del_name l).
+Proof.
+  apply filter_ext_in. intros x Hx. unfold del_name in Hx. apply filter_In in Hx. destruct Hx as [_ Hx].
+  unfold mem_n. simpl existsb. destruct (fst x =? 0)%N; [discriminate|reflexivity].
+Qed.
+
+Lemma filter_without_name' ml l :
+  filter (fun kv : N * N => negb ((fst kv =? 0)%N || mem_n (fst kv) ml)) (del_name l) =
+  filter (fun kv => negb (mem_n (fst kv) ml)) (del_name l).
+Proof.
+  apply filter_ext_in. intros x Hx. unfold del_name in Hx. apply filter_In in Hx. destruct Hx as [_ Hx].
+  destruct (fst x =? 0)%N; [discriminate|reflexivity].
+Qed.
+
+Lemma del_name_app a b : del_name (a ++ b) = del_name a ++ del_name b.
+Proof. unfold del_name. apply filter_app. Qed.
+
+Lemma del_name_ldel m n : del_name (ldel m n) = ldel (del_name m) n.
+Proof. unfold del_name, ldel. apply filter_comm. Qed.
+
+Lemma del_name_include incl rm : forall m m', del_name m = del_name m' ->
+  del_name (include_labels incl m rm) = del_name (include_labels incl m' rm).
+Proof.
+  unfold include_labels. induction incl as [|n incl IH]; intros m m' H; simpl; [exact H|].
+  apply IH. destruct (lookup rm n) as [v|].
+  - unfold lset. rewrite !del_name_app, !del_name_ldel, H. reflexivity.
+  - rewrite !del_name_ldel, H. reflexivity.
+Qed.
+
+Theorem labels_agree on ml incl c return_bool op_drops_name lm rm :
+  (is_one_to_one c = true -> incl = []) ->
+  build_output incl return_bool (the_lbl on ml c return_bool op_drops_name lm) rm =
+  ref_result_metric op_drops_name return_bool c on ml incl lm rm.
+Proof.
+  intros Hincl. unfold build_output, the_lbl, side_labels, keep_labels, keep_name, ref_result_metric.
+  destruct return_bool.
+  - (* bool: the name is dropped at the end *)
+    rewrite orb_true_r. simpl negb. cbv iota.
+    destruct (is_one_to_one c) eqn:E11; simpl negb.
+    + rewrite (Hincl eq_refl). unfold include_labels. simpl fold_left.
+      destruct on.
+      * rewrite del_name_filter. destruct op_drops_name; rewrite ?del_name_idem; reflexivity.
+      * rewrite del_name_filter, ?filter_without_name, ?filter_without_name'. destruct op_drops_name; rewrite ?del_name_idem; reflexivity.
+    + destruct incl as [|n incl'].
+      * unfold include_labels. simpl. destruct op_drops_name; rewrite ?del_name_idem; reflexivity.
+      * apply del_name_include. destruct op_drops_name; rewrite ?del_name_idem; reflexivity.
+  - rewrite orb_false_r.
+    destruct (is_one_to_one c) eqn:E11; simpl negb.
+    + rewrite (Hincl eq_refl). unfold include_labels. simpl fold_left.
+      destruct on; destruct op_drops_name; simpl negb; try reflexivity.
+      first [apply filter_without_name | apply filter_without_name'].
+    + destruct incl as [|n incl']; destruct op_drops_name; reflexivity.
+Qed.
+
+(* ---- a whole query: one-to-one and many-to-one (group_left) ------------------ *)
+
+Section QueryProofs.
+  Variable V : Type.
+  Variable dflt : V.
+  Variable op : V -> V -> V * bool.
+  Variable b2v : bool -> V.
+  Variable on : bool.
+  Variable ml incl : list N.
+  Variable c : card.
+  Variable return_bool : bool.
+  Variable op_drops_name : bool.
+  Variable lhs_series rhs_series : list labels.
+
+  Notation stepT := (Z * list (nat * V) * list (nat * V))%type.
+
+  (* sample IDs are distinct and name series of the operand *)
+  Definition good_step (s : stepT) : Prop :=
+    (forall iv, In iv (snd (fst s)) -> fst iv < length lhs_series) /\
+    (forall iv, In iv (snd s) -> fst iv < length rhs_series) /\
+    NoDup (map fst (snd (fst s))) /\ NoDup (map fst (snd s)).
+
+  Fixpoint increasing (prev : Z) (steps : list stepT) : Prop :=
+    match steps with
+    | [] => True
+    | s :: r => (prev < fst (fst s))%Z /\ increasing (fst (fst s)) r
+    end.
+
+  Definition one_side_unique : Prop :=
+    forall i j, i < length rhs_series -> j < length rhs_series ->
+      the_sig on ml (nth i rhs_series []) = the_sig on ml (nth j rhs_series []) -> i = j.
+
+  Notation hidx := (op_hidx on ml c lhs_series rhs_series).
+  Notation lidx := (op_lidx on ml c lhs_series rhs_series).
+  Notation oseries := (op_series on ml incl c return_bool op_drops_name lhs_series rhs_series).
+  Notation pure := (pure_step V op b2v c return_bool hidx lidx).
+  Notation relab := (relabel V on ml incl c return_bool op_drops_name lhs_series rhs_series).
+
+  Lemma steps_ok_of_good : is_one_to_many c = false -> one_side_unique ->
+    forall steps prev, increasing prev steps -> Forall good_step steps ->
+    steps_ok V c hidx lidx (length oseries) prev steps.
+  Proof.
+    intros Hc HA. induction steps as [|[[ts lhs] rhs] steps IH]; intros prev Hinc Hgood; simpl; [exact I|].
+    simpl in Hinc. destruct Hinc as [Hlt Hinc]. inversion Hgood as [|? ? [G1 [G2 [G3 G4]]] Hgood']; subst. simpl in *.
+    destruct (operator_step_ok V on ml incl c return_bool op_drops_name lhs_series rhs_series Hc lhs rhs G2 G3 G4 HA
+                (new_table V dflt (length oseries))) as [S1 [S2 S3]].
+    { unfold new_table. apply repeat_length. }
+    split; [exact Hlt|]. split; [exact S1|]. split.
+    - intros o Ho. specialize (S2 o Ho). unfold new_table in S2. rewrite repeat_length in S2. exact S2.
+    - split; [exact S3|]. apply IH; assumption.
+  Qed.
+
+  (* Every step of the query is the table-free pairing: timestamps tags never
+     leak a value from one step into another, for any number of steps. *)
+  Theorem run_operator_is_pairing : is_one_to_many c = false -> one_side_unique ->
+    forall steps prev, (noT <= prev)%Z -> increasing prev steps -> Forall good_step steps ->
+    run_operator V dflt op b2v on ml incl c return_bool op_drops_name lhs_series rhs_series steps =
+    inl (map (fun s : stepT => (fst (fst s), relab (pure (snd (fst s)) (snd s)))) steps).
+  Proof.
+    intros Hc HA steps prev Hp Hinc Hgood. unfold run_operator.
+    rewrite (exec_steps_pure V dflt op b2v c return_bool hidx lidx steps _ prev Hp).
+    - rewrite map_map. reflexivity.
+    - apply new_table_tags. lia.
+    - unfold new_table. rewrite repeat_length. apply steps_ok_of_good; assumption.
+  Qed.
+
+  (* ... and at every step at which the reference engine succeeds, the samples
+     are exactly the reference engine's *)
+  Theorem run_operator_matches_reference : is_one_to_many c = false -> one_side_unique ->
+    (is_one_to_one c = true -> incl = []) ->
+    forall (s : stepT) out, good_step s ->
+    ref_operator_step V op b2v on ml incl c return_bool op_drops_name lhs_series rhs_series (snd (fst s)) (snd s) = Some out ->
+    forall m v, In (m, v) (relab (pure (snd (fst s)) (snd s))) <-> In (m, v) out.
+  Proof.
+    intros Hc HA Hincl [[ts lhs] rhs] out [G1 [G2 [G3 G4]]] Href. simpl in *.
+    apply (operator_step_matches_reference V op b2v on ml incl c return_bool op_drops_name lhs_series rhs_series Hc
+             lhs rhs G1 G2 G3 G4 HA); [|exact Href].
+    intros h l _ _. apply labels_agree. exact Hincl.
+  Qed.
+End QueryProofs.
+
+(* non-vacuity: foo * on (a) group_left (c) bar over three steps; 0 = __name__, 1 = a, 2 = b, 3 = c *)
+Example join_example :
+  let L := [[(0, 10); (1, 20); (2, 31)]; [(0, 10); (1, 20); (2, 32)]; [(0, 10); (1, 21); (2, 31)]]%N in
+  let R := [[(0, 11); (1, 20); (3, 40)]]%N in
+  let mul (a b : Z) := ((a * b)%Z, true) in
+  let steps := [(100%Z, [(0, 2%Z); (1, 3%Z); (2, 4%Z)], [(0, 10%Z)]); (130%Z, [(1, 5%Z)], [(0, 7%Z)]); (160%Z, [(1, 5%Z)], [])] in
+  one_side_unique true [1%N] R /\ Forall (good_step Z L R) steps /\ increasing Z 0%Z steps /\
+  run_operator Z 0%Z mul (fun b : bool => if b then 1%Z else 0%Z) true [1%N] [3%N] ManyToOne false true L R steps =
+  inl [(100%Z, [([(1, 20); (2, 31); (3, 40)]%N, 20%Z); ([(1, 20); (2, 32); (3, 40)]%N, 30%Z)]);
+       (130%Z, [([(1, 20); (2, 32); (3, 40)]%N, 35%Z)]); (160%Z, [])].
+Proof.
+  cbv zeta. split; [|split; [|split]].
+  - intros i j Hi Hj _. simpl in Hi, Hj. lia.
+  - repeat (apply Forall_cons || apply Forall_nil); unfold good_step; simpl; repeat split;
+      try (intros iv H; intuition (subst; simpl; lia));
+      repeat (apply NoDup_cons; [simpl; intuition lia|]); apply NoDup_nil.
+  - simpl. lia.
+  - vm_compute. reflexivity.
+Qed.
